@@ -18,7 +18,7 @@ static void op_secstr(int nt, char **t) {
     size_t n = strnlen(buf, LIBWIFI_SECURITY_BUF_LEN);
     if (n >= LIBWIFI_SECURITY_BUF_LEN) printf("secstr UNTERMINATED");
     else { printf("secstr %zu ", n); out_hex((unsigned char *) buf, n); }
-    __real_free(buf);
+    hfree(buf);
 }
 
 const struct op ops_sec[] = {
